@@ -116,6 +116,45 @@ class Ctx:
         self.saw_fn(candidates[0])
         return candidates[0]
 
+    # ---- borrowing ---------------------------------------------------------------------------
+    _BORROW_CACHE = {}
+    _BORROWING = set()
+
+    def borrow(self, prop, rules, as_rule, why, keys=None):
+        """Evaluates rules owned by another property under this property's id `as_rule`. The other property's whole rule set is run once
+        per fact set (cached) on a private context; the obligations of the named rules (optionally only keys with one of the prefixes `keys`)
+        are copied here, re-labelled `as_rule` and keyed `<their rule>:<their key>`. `why` says which clause of this property rests on them."""
+        import importlib
+        ck = (id(self.facts), prop)
+        sub = Ctx._BORROW_CACHE.get(ck)
+        if sub is None:
+            if prop in Ctx._BORROWING or prop == self.prop:
+                return 0
+            Ctx._BORROWING.add(prop)
+            try:
+                sub = Ctx(prop, self.facts, tier=self.tier, seed=self.seed, repo=self.repo, alt_facts=self.alt_facts)
+                importlib.import_module("wxlint.rules." + prop.lower()).run(sub)
+            finally:
+                Ctx._BORROWING.discard(prop)
+            Ctx._BORROW_CACHE[ck] = sub
+        texts = [sub.rules.get(r, "") for r in rules]
+        self.also(as_rule, "%s (rules %s of %s evaluated here: %s)" % (why, ", ".join(rules), prop, " / ".join(t[:160] for t in texts)))
+        n = 0
+        for o in sub.obs:
+            if o.rule not in rules:
+                continue
+            if keys is not None and not any(o.key.startswith(k) or o.key.startswith("ANALYSIS-INCOMPLETE:" + k) or o.key.startswith("floor:") for k in keys):
+                continue
+            self.obs.append(Ob(as_rule, "%s:%s" % (o.rule, o.key), o.what, o.loc, o.status, o.detail, o.trivial))
+            n += 1
+        if n == 0:
+            self.violation(as_rule, "floor:borrowed:%s" % "+".join(rules), "no obligation of %s %s was evaluated - the borrowed rule disappeared" % (prop, rules))
+        for d in sub.analysed_fns:
+            f = self.facts.find_fn(d)
+            if f is not None:
+                self.saw_fn(f)
+        return n
+
     # ---- finishing ---------------------------------------------------------------------------
     def finish(self, evidence_path, known):
         """returns exit code; prints VIOLATION / KNOWN-FINDING lines"""
